@@ -128,6 +128,9 @@ AgreeFloor(rt, ro) ==
   /\ rt[1] = ro[1]
   /\ rt[1] = 0 => ro[2] = <<rt[2][1], rt[2][2], 0>>
 
+ParseOps == {"D.parse", "T.parse", "TS.parse", "YM.parse", "DT.parse", "OD.parse",
+             "D.parse_at", "T.parse_at", "TS.parse_at", "YM.parse_at", "DT.parse_at", "OD.parse_at",
+             "D.unjson", "T.unjson", "TS.unjson", "YM.unjson", "DT.unjson", "OD.unjson"}
 TypeOfJsonOp(op) ==
   CASE op = "D.json" -> "D" [] op = "T.json" -> "T" [] op = "TS.json" -> "TS"
     [] op = "YM.json" -> "YM" [] op = "DT.json" -> "DT" [] op = "OD.json" -> "OD"
@@ -325,6 +328,10 @@ OpOK(op, a, r) ==
         IF Unjudged(a[2]) THEN r[1] \in {0, 1}
         ELSE LET e == FormatRes(a[2], TypeOfFormatOp(op), a[1]) IN
              IF e[1] = 0 THEN IsOk(r, e[2]) ELSE IsErr(r)
+  (* ---- parsing of arbitrary text: which value (if any) an arbitrary text denotes is decided by
+          Spell.tla for the texts it spells (SpellGen); for any other text the properties only demand
+          "a value in range or an error, never a panic" (C02, C03) - judged by ValueInRange / NoPanic ---- *)
+  [] op \in ParseOps -> r[1] \in {0, 1}
   (* ---- serialization (C15) ---- *)
   [] op \in {"D.json", "T.json", "TS.json", "YM.json", "DT.json", "OD.json"} ->
         LET ty == TypeOfJsonOp(op) IN r = RenderTokens(Lex(FixedPic(ty)), ty, a[1])
@@ -362,22 +369,22 @@ OpOK(op, a, r) ==
 \* C02: whatever an operation returns as a value lies in its type's range.
 \* Result type of each operation (for the range invariant and for Session.tla).
 ResType(op) ==
-  CASE op \in {"D.try_from_ymd", "D.try_from_days", "D.add_days", "D.sub_days", "D.last_day_of_month",
+  CASE op \in {"D.parse", "D.parse_at", "D.unjson", "D.try_from_ymd", "D.try_from_days", "D.add_days", "D.sub_days", "D.last_day_of_month",
                "D.trunc", "D.round", "D.now_at"} -> "D"
-    [] op \in {"D.and_hms", "D.and_time", "D.add_time", "D.to_ts", "D.add_interval_ym", "D.sub_interval_ym",
+    [] op \in {"TS.parse", "TS.parse_at", "TS.unjson", "D.and_hms", "D.and_time", "D.add_time", "D.to_ts", "D.add_interval_ym", "D.sub_interval_ym",
                "D.add_interval_dt", "D.sub_interval_dt", "D.sub_time", "TS.new", "TS.try_from_usecs",
                "TS.add_interval_dt", "TS.sub_interval_dt", "TS.add_time", "TS.sub_time", "TS.add_interval_ym",
                "TS.sub_interval_ym", "TS.add_days", "TS.sub_days", "TS.last_day_of_month", "TS.trunc", "TS.round",
                "TS.now_at", "TS.from_time_at", "OD.to_ts", "OD.add_time", "OD.sub_time"} -> "TS"
-    [] op \in {"T.try_from_hms", "T.try_from_usecs", "T.add_interval_dt", "T.sub_interval_dt", "T.from_ts",
+    [] op \in {"T.parse", "T.parse_at", "T.unjson", "T.try_from_hms", "T.try_from_usecs", "T.add_interval_dt", "T.sub_interval_dt", "T.from_ts",
                "T.from_od", "T.from_dt", "OD.to_time"} -> "T"
-    [] op \in {"YM.try_from_ym", "YM.try_from_months", "YM.add_interval_ym", "YM.sub_interval_ym", "YM.neg",
+    [] op \in {"YM.parse", "YM.parse_at", "YM.unjson", "YM.try_from_ym", "YM.try_from_months", "YM.add_interval_ym", "YM.sub_interval_ym", "YM.neg",
                "YM.mul_f64", "YM.div_f64"} -> "YM"
-    [] op \in {"D.sub_timestamp", "T.sub_time", "T.mul_f64", "T.div_f64", "TS.sub_date", "TS.sub_timestamp",
+    [] op \in {"DT.parse", "DT.parse_at", "DT.unjson", "D.sub_timestamp", "T.sub_time", "T.mul_f64", "T.div_f64", "TS.sub_date", "TS.sub_timestamp",
                "TS.oracle_sub_date", "DT.try_from_dhms", "DT.try_from_usecs", "DT.add_interval_dt",
                "DT.sub_interval_dt", "DT.sub_time", "DT.neg", "DT.from_time", "DT.mul_f64", "DT.div_f64",
                "OD.sub_timestamp"} -> "DT"
-    [] op \in {"TS.oracle_add_days", "TS.oracle_sub_days", "OD.new", "OD.try_from_usecs", "OD.from_ts",
+    [] op \in {"OD.parse", "OD.parse_at", "OD.unjson", "TS.oracle_add_days", "TS.oracle_sub_days", "OD.new", "OD.try_from_usecs", "OD.from_ts",
                "OD.add_interval_dt", "OD.sub_interval_dt", "OD.add_interval_ym", "OD.sub_interval_ym",
                "OD.add_days", "OD.sub_days", "OD.last_day_of_month", "OD.trunc", "OD.round", "OD.now_at",
                "OD.from_time_at"} -> "OD"
